@@ -24,6 +24,7 @@
 #include <unifex/let_value_with.hpp>
 #include <unifex/let_value_with_stop_token.hpp>
 #include <unifex/sender_concepts.hpp>
+#include <unifex/detail/verif_hooks.hpp>
 
 #include <mutex>
 #include <optional>
@@ -158,8 +159,10 @@ struct async_auto_reset_event::stream_view final {
                 std::in_place, stopToken, stopCallback};
           },
           [evt](auto& stopCallback) noexcept {
+            UNIFEX_VERIF_YIELD("event.auto.wait");
             return unifex::let_value(
                 evt->event_.async_wait(), [evt, &stopCallback]() noexcept {
+                  UNIFEX_VERIF_YIELD("event.auto.cont");
                   stopCallback.reset();
                   return unifex::just_void_or_done(evt->try_reset());
                 });
